@@ -45,7 +45,7 @@ def run(tier="quick", seed=0, replay=None):
     if replay:
         print(open(replay).read())
         return 1
-    core.lean_stage(chk, "C17")
+    core.lean_stage(chk, "C17", extra_props=["E2E"])
     from harness import cover
     from harness import fingerprint
     fingerprint.direct(chk, ['ixai/explainer/pfi.py', 'ixai/explainer/sage/incremental.py'])
